@@ -1,9 +1,3 @@
 use crate::*;
-#[::entrait::entrait(TI, delegate_by = Del, ?Send)]
-pub trait T { async fn f(&self); }
-
-pub struct X;
-#[::entrait::entrait]
-impl TI for X { pub async fn f<D: Sync>(deps: &D) { let rc = ::std::rc::Rc::new(1u8); ::vt::yield_once().await; let _keep = *rc;  } }
-
-impl Del<Self> for crate::App { type Target = X; }
+#[::entrait::entrait(pub T, ?Send)]
+async fn f<G: Send + 'static>(deps: &crate::ConcN, g: G) -> G { let rc = ::std::rc::Rc::new(1u8); ::vt::yield_once().await; let _keep = *rc; g }
